@@ -478,6 +478,59 @@ pub fn run(_kind: &str, ctx: &Ctx, out: &mut dyn Write) {
             }
         }
     }
+    // ---- finding K6 (bounded variant): ranges are expanded BEFORE the boundary check, so the cost of
+    // a rejected line grows with the range although the boundary is n.  Wall-clock of
+    // `count a 1..K` for growing K on a 5-feature model (the answer is the E3 boundary error).
+    {
+        let n = 5u32;
+        let free: Vec<String> = vec!["t 1 0".to_string()];
+        let mut s = String::new();
+        writeln!(s, "case c13-{}-k6 C13", profile).unwrap();
+        writeln!(s, "info resource probe: range expansion before the boundary check | {}", profile).unwrap();
+        writeln!(s, "k6 1").unwrap();
+        if let Ok(mut d) = load(&free, Some(n)) {
+            for k in [3_000u64, 30_000, 300_000, 3_000_000] {
+                let line = format!("count a 1..{}", k);
+                let mut best = u128::MAX;
+                let mut ans = String::new();
+                for _ in 0..3 {
+                    let t = std::time::Instant::now();
+                    let r = guarded(|| d.handle_stream_msg(&line));
+                    best = best.min(t.elapsed().as_nanos());
+                    ans = match r { Ok(a) => a, Err(m) => format!("PANIC {}", m) };
+                }
+                writeln!(s, "K6 {} {} {}", k, best, hex(&ans)).unwrap();
+            }
+        }
+        writeln!(s, "end").unwrap();
+        out.write_all(s.as_bytes()).unwrap();
+    }
+    // ---- finding K2 seen from C13 (debug profile only: the release profile wraps and is not
+    // modelled): the enumeration cursor is process-global and keyed by the assumptions only, so a
+    // cursor left by a model with more configurations makes `enum` on a smaller model underflow
+    // `range.1 - range.0` in enumerate_node.
+    if cfg!(debug_assertions) {
+        let big: Vec<String> = vec!["t 1 0".to_string()]; // 3 free features: 8 configurations
+        let small: Vec<String> = vec!["o 1 0".to_string(), "t 2 0".to_string(), "1 2 1 0".to_string(), "1 2 -1 2 0".to_string()];
+        if let (Ok(mut a), Ok(mut b)) = (load(&big, Some(3)), load(&small, Some(2))) {
+            let mut s = String::new();
+            writeln!(s, "case c13-{}-k2 C13", profile).unwrap();
+            writeln!(s, "info two models in one process share the enumeration cursor | {}", profile).unwrap();
+            writeln!(s, "n 2").unwrap();
+            s.push_str(&file_block("d4", &small));
+            s.push_str(&dump_circuit(&b));
+            writeln!(s, "profile {}", profile).unwrap();
+            let _ = guarded(hook::reset_enumeration_cache);
+            // the other model hands out a page of 5: cursor [] -> 5
+            let other = guarded(|| a.handle_stream_msg("enum l 5"));
+            writeln!(s, "foreign_cursor 5 {}", hex(&other.unwrap_or_else(|m| format!("PANIC {}", m)))).unwrap();
+            run_entry(&mut b, &Entry { flag: 'g', line: "enum".to_string() }, None, 2, "/nonexistent", &mut s);
+            // leave a usable cursor behind
+            let _ = guarded(hook::reset_enumeration_cache);
+            writeln!(s, "end").unwrap();
+            out.write_all(s.as_bytes()).unwrap();
+        }
+    }
     // a last block that only carries the statistics of the generator
     let mut s = String::new();
     writeln!(s, "case c13-{}-stats C13", profile).unwrap();
